@@ -104,7 +104,11 @@ CPPManifest(const CPPPreprocessor &parser, const string &args, const cppyyltype 
     parse_parameters(args, p, parameter_names);
     _num_parameters = parameter_names.size();
 
-    p++;
+    if (p < args.size()) {
+      // Skip the closing parenthesis.  It is missing if the parameter list
+      // ran into the end of the input.
+      p++;
+    }
   } else {
     _has_parameters = false;
     _num_parameters = 0;
